@@ -596,6 +596,11 @@ def _single_generic_decision(run):
     if len(run.dd) != 1 or run.dd[0][0] is None:
         return False
     op, a, b = run.dd[0][0]
+    # a stream-scaled quantity (an absolute value, a product, ...) against a positive configuration constant: below and above both occur
+    for x, y in ((a, b), (b, a)):
+        if isinstance(x, wlin.Dim) and x.deg >= 1 and isinstance(y, Aff) and not y.lin and y.c.is_const() and y.c.const_value() > 0 \
+                and op in ('Lt', 'Le', 'Gt', 'Ge'):
+            return True
     if not (isinstance(a, Aff) and isinstance(b, Aff)):
         return False
     ca = a.co if a.lin else {}
@@ -1119,19 +1124,24 @@ def rule_L05w_compositions(ctx):
     return res
 
 
-def rule_L03_dimensions(ctx):
+def rule_L03_all_methods(ctx):
+    return rule_L03_dimensions(ctx, all_methods=True)
+
+
+def rule_L03_dimensions(ctx, all_methods=False):
     """C15 (affine equivariance): dimensional analysis of every moving average. The stream carries the unit `price`; configuration
     quantities and literals are pure numbers. next() may compare two quantities only when they have the same dimension and the same
     behaviour under a translation of the stream (or a translation-invariant quantity with zero), and may add only quantities of the same
     dimension: a test like `movement > EPSILON` or `value + 1e-9` behaves differently for a*x + b than for x."""
     m = Model(ctx.facts())
     f = m.f
-    res = RuleResult('L03', 'moving averages are dimensionally consistent: no comparison of a price-scaled quantity with an absolute constant, no sum of a price and a pure number')
+    res = RuleResult('L03m' if all_methods else 'L03', ('methods over a single value' if all_methods else 'moving averages') +
+                     ' are dimensionally consistent: no comparison of a price-scaled quantity with an absolute constant, no sum of a price and a pure number')
     ma_types = m.types_implementing(T_MA)
     decided = 0
     for impl in m.method_impls:
         adt = m.adt_path_of_impl(impl)
-        if not adt or adt not in ma_types:
+        if not adt or (adt not in ma_types and not all_methods):
             continue
         short = adt.rsplit('::', 1)[-1]
         nb = m.body(m.impl_fn_path(impl, 'new'))
@@ -1181,7 +1191,7 @@ def rule_L03_dimensions(ctx):
             else:
                 msg = '%s::%s adds quantities of different dimension (%s and %s)' % (short, where, e[1], e[2])
             res.violate('%s|%s|%s' % (short, where, e[0]), msg, xb.file if where == 'next' else nb.file, xb.line if where == 'next' else nb.line)
-    res.floor('moving averages analysed', 12, decided)
+    res.floor('methods analysed', 20 if all_methods else 12, decided)
     return res
 
 
